@@ -115,6 +115,19 @@ ApplySeq(comps, S, a, k) ==
 \* the transition of an environment configured with the list `comps`
 Step(comps, st, a) == ApplySeq(comps, {st}, a, 1)
 
+\* the same with the obstacles processed in a given order ps (a permutation of their positions) instead of
+\* row-major order: the property does not prescribe the order, only that there is one
+RECURSIVE ApplyTO(_, _, _, _)
+RECURSIVE ApplySeqO(_, _, _, _, _)
+ApplyTO(comp, st, a, ps) ==
+  CASE comp.name = "move_obstacles" -> MoveObstaclesInOrder(st, ps)
+    [] comp.name = "chain" -> ApplySeqO(comp.transition_functions, {st}, a, 1, ps)
+    [] OTHER -> ApplyT(comp, st, a)
+ApplySeqO(comps, S, a, k, ps) ==
+  IF k > Len(comps) THEN S
+  ELSE ApplySeqO(comps, UNION {ApplyTO(comps[k], s, a, ps) : s \in S}, a, k + 1, ps)
+StepInOrder(comps, st, a, ps) == ApplySeqO(comps, {st}, a, 1, ps)
+
 \* flat list of the names in a (possibly nested) list of components
 RECURSIVE FlatNames(_)
 FlatNames(comps) ==
